@@ -429,7 +429,23 @@ def _r4_items(ctx, rel, cfg):
     read as the loop over S it is (its variable being `x.alias`) -- which sequence an index is paired with is what matters"""
     # `{% set %}` names are replaced by what they stand for first (also in loop iterables: `{% set members = network.species %}
     # {% for s in members %}` iterates network.species)
-    return J.unmap_loops(J.propagate_sets(J.flatten(ctx.tree, rel, cfg)))
+    return J._map_exprs(J.unmap_loops(J.propagate_sets(J.flatten(ctx.tree, rel, cfg))), _recanon)
+
+
+def _recanon(e):
+    """the canonical spellings the parser gives an expression as written, given again after names were replaced by what they stand
+    for: iterating a dict iterates its keys (`d | first` is `d.keys() | first`), the first / last item of `X | list` is that of X,
+    `x["name"]` of an object is `x.name`"""
+    if not isinstance(e, tuple) or not e:
+        return e
+    e = tuple(_recanon(x) if isinstance(x, tuple) else x for x in e)
+    if e[0] == "filter" and e[1] in ("first", "last", "length") and not e[3] and not e[4] and e[2][0] == "filter" and e[2][1] == "list" and not e[2][3] and not e[2][4]:
+        e = ("filter", e[1], e[2][2], (), ())
+    if e[0] == "filter" and e[1] in ("first", "last", "list", "length", "join", "sort") and e[2][0] == "attr" and e[2][2] == "element_count":
+        e = ("filter", e[1], ("call", ("attr", e[2], "keys"), (), ())) + tuple(e[3:])
+    if e[0] == "item" and e[2][0] == "const" and isinstance(e[2][1], str) and e[2][1] in ("alias", "name", "element_count"):
+        e = ("attr", e[1], e[2][1])
+    return e
 
 
 def _jsubst(e, sets):
@@ -463,14 +479,47 @@ def _stream(items):
             yield it, st
         elif k == "out":
             e = _jsubst(it[1], sets)
-            parts = list(e[1]) if e[0] == "concat" else [e]
-            for p_ in parts:
+            for p_ in _printed_parts(e):
                 if p_[0] == "const" and isinstance(p_[1], str):
                     yield ("text", p_[1]) + tuple(it[2:]), st
                 else:
                     yield ("out", p_) + tuple(it[2:]), st
         else:
             yield it, st
+
+
+def _printed_parts(e):
+    """what `{{ e }}` prints as a sequence of constant texts and printed values, however the line is assembled: `a ~ b`,
+    `"IDX_%s = %d" | format(a, b)`, `"IDX_{} = {}".format(a, b)` (plain %s / %d / %i / {} fields only; anything else is one value)"""
+    if e[0] == "concat":
+        return [q for p_ in e[1] for q in _printed_parts(p_)]
+    fmt = args = None
+    if e[0] == "filter" and e[1] == "format" and e[2][0] == "const" and isinstance(e[2][1], str) and not e[4]:
+        fmt, args = e[2][1], list(e[3])
+        pieces = re.split(r"(%[sdi])", fmt)
+        if "%" in "".join(pieces[0::2]) or len(pieces[1::2]) != len(args) or len(args) < 2:
+            return [e]
+        out = []
+        for i, t in enumerate(pieces):
+            out.append(("const", t) if i % 2 == 0 else args[i // 2])
+        return [p_ for p_ in out if p_ != ("const", "")]
+    if e[0] == "call" and e[1][0] == "attr" and e[1][2] == "format" and e[1][1][0] == "const" and isinstance(e[1][1][1], str) and not e[3]:
+        fmt, args = e[1][1][1], list(e[2])
+        pieces = re.split(r"(\{\d*\})", fmt)
+        if "{" in "".join(pieces[0::2]) or "}" in "".join(pieces[0::2]) or len(args) < 2:
+            return [e]
+        out, auto = [], 0
+        for i, t in enumerate(pieces):
+            if i % 2 == 0:
+                out.append(("const", t))
+                continue
+            j = int(t[1:-1]) if t[1:-1] else auto
+            auto += 0 if t[1:-1] else 1
+            if j >= len(args):
+                return [e]
+            out.append(args[j])
+        return [p_ for p_ in out if p_ != ("const", "")]
+    return [e]
 
 
 def _loop_stream(loop):
@@ -494,6 +543,27 @@ def _plain(e):
             return e
 
 
+SELECTING = {"select", "reject", "selectattr", "rejectattr", "sort", "reverse", "unique", "batch", "slice", "first", "last", "random", "groupby", "dictsort"}
+
+
+def _seq_verdict(e, test, seq):
+    """'ok' when a loop over `e` (with the loop filter `test`) visits exactly the members of `seq` in order (`seq`, `seq | list`);
+    'wrong' when it is understood and does not: `seq` selected from / re-ordered / sliced, a loop filter, another sequence of the
+    same template object (network.elements for network.species);  'unknown' for anything else (a name of unknown origin, a filter
+    this rule does not know, a call)"""
+    base, fs = J.unfilter(e)
+    fs = [f_ for f_ in fs if not (f_[0] in ("list", "tuple") and not f_[1] and not f_[2])]
+    if base == seq:
+        if not fs:
+            return "wrong" if test is not None else "ok"
+        return "wrong" if any(f_[0] in SELECTING for f_ in fs) else "unknown"
+    if base[0] == "item" and base[1] == seq and base[2][0] == "slice":
+        return "wrong"
+    if base[0] == "attr" and base[1] == seq[1] and base[2] != seq[2] and base[1][0] == "name":
+        return "wrong"
+    return "unknown"
+
+
 def _def_loops(ctx, rel, prefix_re, seq, suffix_of, what, expected):
     """loops `for v in <seq>` whose body writes `<prefix><suffix(v)> <sep> loop.index0` (through {% set %} names or a macro alike)."""
     items = _r4_items(ctx, rel, {})
@@ -506,19 +576,21 @@ def _def_loops(ctx, rel, prefix_re, seq, suffix_of, what, expected):
                 hits.append((it, body))
     key = f"{rel.split('/')[-1]}:{what}"
     if len(hits) != 1:
-        (ctx.bad if hits else ctx.missing)("R4", key, (rel, 0), f"expected one loop defining {expected}, found {len(hits)}")
+        # several loops (one per kind of species, say): which member gets which position is not understood -- never a verdict
+        (ctx.unrec if hits else ctx.missing)("R4", key, (rel, hits[0][0][5] if hits else 0), f"expected one loop defining {expected}, found {len(hits)}")
         return
     it, body = hits[0]
     outs = [x for x in body if x[0] == "out"]
     outs = [("out", _plain(x[1])) + tuple(x[2:]) for x in outs]
-    ok = it[2] == seq and it[7] is None and len(outs) == 2 and outs[0][1] == suffix_of(it[1]) and outs[1][1] == IDX0
+    ok = _seq_verdict(it[2], it[7], seq) == "ok" and len(outs) == 2 and outs[0][1] == suffix_of(it[1]) and outs[1][1] == IDX0
     if not ok:
         # VIOLATION only for a pairing that is understood and wrong: the right sequence filtered / re-ordered, another attribute of
         # the loop variable, a position computed from the loop counters alone.  Anything else (a counter kept in a namespace, a
         # sequence of unknown origin) is not understood.
         wrong, unknown = [], []
-        if not (it[2] == seq and it[7] is None):
-            (wrong if J.unfilter(it[2])[0] == seq else unknown).append(f"iterates {J.show(it[2])}")
+        sv = _seq_verdict(it[2], it[7], seq)
+        if sv != "ok":
+            (wrong if sv == "wrong" else unknown).append(f"iterates {J.show(it[2])}")
         if not (outs and outs[0][1] == suffix_of(it[1])):
             # another attribute of the loop variable, or an item picked by position out of the right sequence filtered / re-ordered
             resorted = bool(outs) and any(isinstance(x, tuple) and len(x) == 3 and x[0] == "item" and x[1] != seq and J.unfilter(x[1])[0] == seq for x in _walk(outs[0][1]))
@@ -561,14 +633,44 @@ def _r4_defs(ctx, pkg):
             prev = ""
     for name, (seq, attr) in lists.items():
         it = found.get(name)
-        ok = it is not None and it[0] == "for" and it[2] == seq and it[7] is None and [x[1] for x in it[3] if x[0] == "out"] == [("attr", it[1], attr)]
-        ctx.check(ok, "R4", f"constants.py:{name}", (PYCONST, it[5] if it is not None and it[0] == "for" else 0),
-                  f"{name} lists .{attr} over the unfiltered {J.show(seq)} (position n = index n)", found=J.show(it[2]) if it is not None and it[0] == "for" else "missing")
+        key = f"constants.py:{name}"
+        if it is None:
+            ctx.missing("R4", key, (PYCONST, 0), f"no `{name} = [..]` found in the constants module")
+            continue
+        if it[0] != "for":
+            # written in another way (a join over a mapped sequence, a macro): which sequence it lists is not read here
+            ctx.unrec("R4", key, (PYCONST, it[2]), f"{name} is not written as a loop over a sequence: {J.show(it[1])[:80]}")
+            continue
+        outs = [_plain(x[1]) for x, _ in _stream(it[3]) if x[0] == "out"]
+        sv = _seq_verdict(it[2], it[7], seq)
+        named = len(outs) == 1 and outs[0] == ("attr", it[1], attr)
+        other_attr = len(outs) == 1 and outs[0][0] == "attr" and outs[0][1] == it[1] and outs[0][2] != attr
+        if sv == "unknown" or not (named or other_attr):
+            if sv == "wrong":
+                ctx.bad("R4", key, (PYCONST, it[5]), f"{name} lists a selection / another order of {J.show(seq)}: position n is no longer index n", found=J.show(it[2]))
+            else:
+                ctx.unrec("R4", key, (PYCONST, it[5]), f"what {name} lists is not understood: for {J.show(it[1])} in {J.show(it[2])}: " + " ".join(J.show(o) for o in outs)[:80])
+            continue
+        ctx.check(sv == "ok" and named, "R4", key, (PYCONST, it[5]),
+                  f"{name} lists .{attr} over the unfiltered {J.show(seq)} (position n = index n)", found=f"for {J.show(it[1])} in {J.show(it[2])}: " + " ".join(J.show(o) for o in outs))
     for name, seq in (("NELEM", NELEM), ("NSPEC", NSPEC)):
         it = found.get(name)
-        ok = it is not None and it[0] == "out" and J.canon(it[1]) == ("filter", "length", seq, (), ())
-        ctx.check(ok, "R5", f"constants.py:{name}", (PYCONST, it[2] if it is not None and it[0] == "out" else 0), f"{name} = {J.show(seq)} | length",
-                  found=J.show(it[1]) if it is not None and it[0] == "out" else "missing")
+        key = f"constants.py:{name}"
+        if it is None:
+            ctx.missing("R5", key, (PYCONST, 0), f"no `{name} = ..` found in the constants module")
+            continue
+        if it[0] != "out":
+            ctx.unrec("R5", key, (PYCONST, it[5]), f"{name} is not one printed value")
+            continue
+        c = J.canon(_recanon(it[1]))
+        if not (c[0] == "filter" and c[1] == "length"):
+            ctx.unrec("R5", key, (PYCONST, it[2]), f"{name} is not the length of a sequence: {J.show(it[1])[:80]}")
+            continue
+        sv = _seq_verdict(c[2], None, seq)
+        if sv == "unknown":
+            ctx.unrec("R5", key, (PYCONST, it[2]), f"{name} counts a sequence this rule does not know: {J.show(c[2])[:80]}")
+            continue
+        ctx.check(sv == "ok", "R5", key, (PYCONST, it[2]), f"{name} = {J.show(seq)} | length", found=J.show(it[1]))
     # render.py summary and NetworkConfiguration
     # by role: the lists are what is stored under summary["list_of_..."], in whichever method of the command builds the table
     # (a `for key, names in {..}.items(): summary[f"list_of_{key}"] = names` loop is one store per entry)
@@ -676,10 +778,18 @@ def _r4_defs(ctx, pkg):
         if owner is not None:
             v = at_call_site(owner, v)
         ok = False
+        m = None
         if v[0] == "call" and v[1] == ("global", "len") and len(v[2]) == 1 and not v[3]:
             # the length of the sequence itself, or of a list with one entry per member of it (unfiltered, one-to-one)
-            m = as_map(v[2][0])
+            arg = v[2][0]
+            if arg[0] == "acc" and owner is not None:
+                arg = acc_comp(owner, arg[1]) or arg
+            m = as_map(arg)
             ok = bool(m) and not m[3] and m[2][0] == "attr" and m[2][2] == attr and m[2][1][0] != "const"
+        if not ok and not (m and m[2][0] == "attr" and m[2][1][0] in ("param", "global", "attr", "call", "meth")):
+            # not the length of a list built from an attribute of the network object: what is counted is not understood
+            ctx.unrec("R5", f"render.py summary:{name}", (RENDER, f.line), f"{name} is not the length of a network sequence: {show(v)[:80]}")
+            continue
         ctx.check(ok, "R5", f"render.py summary:{name}", (RENDER, f.line), f"{name} = len(net.{attr})", found=show(v)[:60])
     ctx.floor("R5", "render.py summary counts", len(counts), 2, (RENDER, h.lineno))
     ci = pkg.cls("NetworkConfiguration")
@@ -699,19 +809,49 @@ def _r4_defs(ctx, pkg):
                 ctx.unrec("R4", f"NetworkConfiguration:{f.target}", (CONF, f.line), f"{f.target} is not a list built from a network sequence: {show(val)[:100]}")
                 continue
             ok = bool(m) and m[1] == ("attr", m[0], fld) and m[2] == seq and not m[3]
+            # understood and wrong: a list over an attribute of the network argument that is another one / filtered / another field
+            if not ok and not (m[2][0] == "attr" and m[2][1] == N and m[1][0] == "attr" and m[1][1] == m[0]):
+                ctx.unrec("R4", f"NetworkConfiguration:{f.target}", (CONF, f.line), f"{f.target} is not a list of one field over a sequence of the network argument: {show(val)[:100]}")
+                continue
             ctx.check(ok, "R4", f"NetworkConfiguration:{f.target}", (CONF, f.line), f"{f.target} = [x.{fld} for x in network.{seq[2]}]", found=show(simp(f.value))[:80])
     # enzo header
     ctx.saw(ENZOH)
     items = _r4_items(ctx, ENZOH, {})
-    loops = [it for it, st in J.walk_items(items) if it[0] == "for"]
-    ok_all = len(loops) == 2
-    for it in loops:
-        outs = [x[1] for x in it[3] if x[0] == "out"]
-        ok = it[2] == NSPEC and it[7] is None and outs and outs[0] == ("attr", it[1], "alias")
-        ok_all = ok_all and ok
-    ctx.check(ok_all, "R4", "naunet_enzo.h:A_ table", (ENZOH, loops[0][5] if loops else 0),
-              "A_<alias> definitions and A_Table[NSPECIES] both range over the unfiltered network.species in order",
-              found="; ".join(J.show(it[2]) for it in loops))
+    # by role: the loops that write `A_<..>` -- the definitions and the positional table
+    loops = []
+    for it, st in _stream(items):
+        if it[0] == "for":
+            body = _loop_stream(it)
+            if body is not None and re.search(r"\bA_\x00", "".join(x[1] if x[0] == "text" else "\x00" for x in body)):
+                loops.append((it, body))
+    key = "naunet_enzo.h:A_ table"
+    if len(loops) != 2:
+        (ctx.unrec if loops else ctx.missing)("R4", key, (ENZOH, loops[0][0][5] if loops else 0), f"expected the A_<alias> definitions and the A_Table loop, found {len(loops)} loops writing A_<..>")
+    else:
+        verdicts, found = [], []
+        for it, body in loops:
+            # the value printed right after `A_`
+            suffix, prev = None, ""
+            for x in body:
+                if x[0] == "text":
+                    prev += x[1]
+                else:
+                    if re.search(r"\bA_$", prev) and suffix is None:
+                        suffix = _plain(x[1])
+                    prev = ""
+            sv = _seq_verdict(it[2], it[7], NSPEC)
+            found.append(f"for {J.show(it[1])} in {J.show(it[2])}: A_{J.show(suffix) if suffix else '?'}")
+            if suffix == ("attr", it[1], "alias") and sv == "ok":
+                verdicts.append("ok")
+            elif sv == "wrong" or (sv == "ok" and suffix is not None and suffix[0] == "attr" and suffix[1] == it[1]):
+                verdicts.append("wrong")
+            else:
+                verdicts.append("unknown")
+        if "wrong" not in verdicts and "unknown" in verdicts:
+            ctx.unrec("R4", key, (ENZOH, loops[0][0][5]), "a loop writing A_<..> is not understood: " + "; ".join(found))
+        else:
+            ctx.check("wrong" not in verdicts, "R4", key, (ENZOH, loops[0][0][5]),
+                      "A_<alias> definitions and A_Table[NSPECIES] both range over the unfiltered network.species in order", found="; ".join(found))
 
 
 # ------------------------------------------------------------------ R4 uses in templates
@@ -852,16 +992,25 @@ def _r6(ctx, pkg, rule):
     for rel in J.all_templates(ctx.tree):
         if "/tests/" in rel:
             continue
-        for m in re.finditer(r"\bIDX_(?!ELEM_)([A-Za-z0-9_]+)\b", ctx.tree.read(rel)):
+        # (template comments {# .. #} print nothing)
+        for m in re.finditer(r"\bIDX_(?!ELEM_)([A-Za-z0-9_]+)\b", re.sub(r"\{#.*?#\}", "", ctx.tree.read(rel), flags=re.S)):
             t = m.group(1)
             if t in ("TGAS",):
                 continue
             lits.setdefault(t, rel)
     for f in pkg.files:
-        for m in re.finditer(r"IDX_(?!ELEM_)([A-Za-z0-9]+)\b", ctx.tree.read(f)):
-            t = m.group(1)
-            if t not in ("TGAS",) and not t.startswith("ELEM"):
-                lits.setdefault(t, f)
+        # only text the program can print: the string constants of the module (f-string pieces included) -- not its comments, not its
+        # docstrings (`# n(IDX_X) -> y[IDX_X]` explains a rewriting, it names no species)
+        mod = pkg.modules[f]
+        docs = {id(st.value) for n in ast.walk(mod) if isinstance(n, (ast.Module, ast.ClassDef, ast.FunctionDef, ast.AsyncFunctionDef)) for st in n.body[:1]
+                if isinstance(st, ast.Expr) and isinstance(st.value, ast.Constant) and isinstance(st.value.value, str)}
+        for c in ast.walk(mod):
+            if not (isinstance(c, ast.Constant) and isinstance(c.value, str) and id(c) not in docs):
+                continue
+            for m in re.finditer(r"IDX_(?!ELEM_)([A-Za-z0-9]+)\b", c.value):
+                t = m.group(1)
+                if t not in ("TGAS",) and not t.startswith("ELEM"):
+                    lits.setdefault(t, f)
     n = 0
     for t, where in sorted(lits.items()):
         n += 1
@@ -890,6 +1039,10 @@ def _r6(ctx, pkg, rule):
     want = {"p": r"\1II", "m": r"\1M", ")": r"\1I)"}
     if tab != want and unresolved:
         ctx.unrec("R6", "KROME idx_ suffixes", (kfile, unresolved[0][1]), f"a regular-expression rewriting of the rate text has a pattern / replacement that is not a literal: {unresolved[0][0][:80]}")
+    elif not tab:
+        # no idx_ rewriting was found where this rule looks (rateexpr, the methods / module functions it calls): where the suffixes
+        # are translated is not known -- no verdict on how
+        ctx.unrec("R6", "KROME idx_ suffixes", (kfile, kfn.lineno), "no regular-expression rewriting of `idx_..` was found in KROMEReaction.rateexpr or the helpers it calls")
     else:
         ctx.check(tab == want, "R6", "KROME idx_ suffixes", (kfile, kfn.lineno),
                   "idx_Xp -> IDX_XII, idx_Xm -> IDX_XM, idx_X) -> IDX_XI): the suffixes Species.alias gives to charge +1, -1, 0", expected=str(want), found=str(tab))
@@ -958,6 +1111,13 @@ def regex_rewrites(pkg, cname, fn):
                         m = {}
                     new += [dict(r, **m) for r in rows]
                 rows = new or rows
+        # ... or the fold over one: `reduce(lambda text, row: row[0].sub(row[1], text), TABLE, start)` visits the rows in order
+        for rd in ast.walk(f):
+            if isinstance(rd, ast.Call) and ast.unparse(rd.func) in ("reduce", "functools.reduce") and len(rd.args) == 3 and isinstance(rd.args[0], ast.Lambda) \
+                    and len(rd.args[0].args.args) == 2 and any(n is c for n in ast.walk(rd.args[0].body)):
+                tab = table(rd.args[1], f)
+                if tab is not None:
+                    rows = [dict(r, **{rd.args[0].args.args[1].arg: el}) for el in tab.elts for r in rows]
         return rows
 
     def text(e, env, f, depth=0):
@@ -967,6 +1127,9 @@ def regex_rewrites(pkg, cname, fn):
             return None
         if isinstance(e, ast.Call) and ast.unparse(e.func) == "re.compile" and e.args:
             return text(e.args[0], env, f, depth + 1)
+        if isinstance(e, ast.Subscript) and isinstance(e.value, ast.Name) and e.value.id in env and isinstance(env[e.value.id], (ast.Tuple, ast.List)) \
+                and isinstance(e.slice, ast.Constant) and type(e.slice.value) is int and -len(env[e.value.id].elts) <= e.slice.value < len(env[e.value.id].elts):
+            return text(env[e.value.id].elts[e.slice.value], env, f, depth + 1)          # row[0] of the table row the loop / fold is at
         if isinstance(e, ast.Name):
             if e.id in env:
                 return text(env[e.id], env, f, depth + 1)
